@@ -105,6 +105,9 @@ func runTracker(c *Ctx, profile string) {
 	if profile == "C13" {
 		genServed(c, c.R, c.N/400+6)
 	}
+	if profile == "C12" {
+		trkAlias(c)
+	}
 	r := c.R
 	seqLen := 40
 	nseq := c.N / (seqLen * 2)
